@@ -588,6 +588,9 @@ theorem chunkTy_lex (r : Nat) (ty : Str) (h : Link.chunkTy r = some ty) : jsIdLe
     subst h
     cases ck <;> decide
 
+theorem jsIdOk_lex' (n : Spec.Name) (h : jsIdOk n = true) : jsIdLex n = true := by
+  simp only [jsIdOk, Bool.and_eq_true] at h; exact h.1
+
 mutual
 theorem toJsE_lexok (c : JCtx) : ∀ (e : Expr), JsOkE e = true → LexOK (toJsE c e)
   | .int _, _ => by simp [toJsE, LexOK]
@@ -668,7 +671,13 @@ theorem toJsE_lexok (c : JCtx) : ∀ (e : Expr), JsOkE e = true → LexOK (toJsE
     simp only [toJsE, jcall, LexOK]; exact ⟨hl, fas⟩
   | .float _ _, h => by simp [JsOkE] at h
   | .me, h => by simp [JsOkE] at h
-  | .mcall _ _ _, h => by simp [JsOkE] at h
+  | .mcall o m as, h => by
+    simp only [JsOkE, Bool.and_eq_true] at h
+    obtain ⟨⟨hro, hm⟩, has⟩ := h
+    obtain ⟨x, ⟨hx1, _, _, _⟩, hte, _, _⟩ := recvJsOk_spec c o m as hro
+    rw [hte]
+    simp only [jcall, LexOK, LexOKL]
+    exact ⟨jsIdOk_lex' x hx1, ⟨by decide, hm, trivial⟩, toJsEs_lexok c as has⟩
   | .plist as, h => by
     have fas := toJsEs_lexok c as (by simpa [JsOkE] using h)
     have hl : jsIdLex "propList".toList = true := by decide
@@ -860,7 +869,13 @@ theorem toJsE_fragJ (c : JCtx) : ∀ (e : Expr), JsOkE e = true → JFrag (toJsE
   | .key v, _ => toJsE_frag c (.key v) trivial
   | .float _ _, h => by simp [JsOkE] at h
   | .me, h => by simp [JsOkE] at h
-  | .mcall _ _ _, h => by simp [JsOkE] at h
+  | .mcall o m as, h => by
+    simp only [JsOkE, Bool.and_eq_true] at h
+    obtain ⟨⟨hro, hm⟩, has⟩ := h
+    obtain ⟨x, ⟨hx1, _, _, _⟩, hte, _, _⟩ := recvJsOk_spec c o m as hro
+    rw [hte]
+    simp only [jcall, JFrag, JFragL]
+    exact ⟨jsIdOk_okId x hx1, ⟨by decide, trivial, trivial⟩, toJsEs_fragJ c as has⟩
   | .movie _, h => by simp [JsOkE] at h
 theorem toJsEs_fragJ (c : JCtx) : ∀ (es : List Expr), JsOkL es = true → JFragL (toJsEs c es)
   | [], _ => by simp [toJsEs, JFragL]
